@@ -325,6 +325,10 @@ func (vr *variableResolver) resolve(ctx *ExecutionContext) (*Value, error) {
 					switch current.Kind() {
 					case reflect.Struct:
 						current = current.FieldByName(part.s)
+						if current.IsValid() && !current.CanInterface() {
+							// Unexported fields are not accessible from templates
+							return AsValue(nil), nil
+						}
 					case reflect.Map:
 						current = current.MapIndex(reflect.ValueOf(part.s))
 					default:
@@ -354,6 +358,10 @@ func (vr *variableResolver) resolve(ctx *ExecutionContext) (*Value, error) {
 							return nil, err
 						}
 						current = current.FieldByName(sv.String())
+						if current.IsValid() && !current.CanInterface() {
+							// Unexported fields are not accessible from templates
+							return AsValue(nil), nil
+						}
 					case reflect.Map:
 						sv, err := part.subscript.Evaluate(ctx)
 						if err != nil {
